@@ -224,9 +224,9 @@ def workload(res):
     thorough = res.tier == "thorough"
     seed = res.seed
     rng = core.rng_for(seed, "c05")
-    progs = tw.corpus_programs(seed, 2500 if thorough else 60) + tw.generated_programs(seed, 15000 if thorough else 500)
+    progs = tw.corpus_programs(seed, 2500 if thorough else 150) + tw.generated_programs(seed, 15000 if thorough else 2500)
     from .. import pep695
-    for i in range(seed * 1000, seed * 1000 + (2000 if thorough else 150)):
+    for i in range(seed * 1000, seed * 1000 + (2000 if thorough else 500)):
         built = pep695.build(i)
         if built:
             progs.append(("pep695:%d" % i, built[0]))
@@ -241,7 +241,7 @@ def workload(res):
             new = derive.subst_ops(text, rng, 0.7)
             if new:
                 items.append(("ops:" + tag, new, "exec"))
-    for tag, text in tw.generated_expressions(seed, 4000 if thorough else 500):
+    for tag, text in tw.generated_expressions(seed, 4000 if thorough else 2000):
         items.append((tag, text, "eval"))
     for lv in (1, 10, 100, 200):
         items.append(("deep-indent:%d" % lv, deep_indent(lv), "exec"))
